@@ -442,8 +442,21 @@ def hosted(_n, okname, position):
     """an ordinary succeeding operation evaluated in one of the 55 expression hosts (failgen.place), inside a statement context and a call chain"""
     from . import failgen as F
     h = int(__import__("hashlib").sha1(("%s/%s" % (okname, position)).encode()).hexdigest()[:8], 16)
-    prog, meta = F.generate(h, kind="ok:" + okname, position=position, ctx=F.CONTEXTS[h % len(F.CONTEXTS)], depth=(0, 0, 1, 2)[(h >> 4) % 4])
+    kind = okname[5:] if okname.startswith("fail:") else "ok:" + okname
+    prog, meta = F.generate(h, kind=kind, position=position, ctx=F.CONTEXTS[h % len(F.CONTEXTS)], depth=(0, 0, 1, 2)[(h >> 4) % 4])
     return prog
+
+
+def fail_props(kind):
+    """which properties a failing expression kind of failgen belongs to"""
+    table = [(("overflow", "div_zero", "mod_zero"), "C06 C16"), (("op_types", "eq_types", "eq_funcs"), "C16 C10"),
+             (("list_oob", "str_oob", "neg_index", "index_type", "not_indexable", "range_", "not_range"), "C11 C16"), (("prop_missing", "key_type", "prop_name", "prop_on"), "C12 C16"),
+             (("collect_", "spread_", "shorthand"), "C13 C16"), (("call_", "arity", "too_few", "print_", "len_args", "type_args", "type_fn"), "C14 C16"),
+             (("interp_", "print_invalid", "len_invalid"), "C15"), (("undefined",), "C20 C04")]
+    for prefixes, props in table:
+        if kind.startswith(prefixes):
+            return props
+    return ""
 
 
 def elseif_dup(n):
@@ -835,6 +848,12 @@ def descs_for(prop, tier):
                 if prop in ("C01", "C02", "C17", "C18") or prop in okprops.split():
                     for position in F.POSITIONS:
                         out.append(("scale", name, 0, (okname, position), prop))
+            # ... and the failing expressions of failgen in every host, for the properties they belong to (C17 and C18 enumerate them themselves)
+            for kind in F.EXPR_FAIL:
+                if prop in ("C01", "C02") or prop in fail_props(kind).split():
+                    for position in F.POSITIONS:
+                        if not (kind.startswith("interp_slot") and position.startswith(("slot", "obj_name_slot"))):
+                            out.append(("scale", name, 0, ("fail:" + kind, position), prop))
             continue
         if prop not in ("C01", "C02") and prop not in props.split():
             continue
